@@ -41,6 +41,7 @@
 import CatVerif.Proofs.Resolve
 import CatVerif.Proofs.Log
 import CatVerif.Proofs.ResolveLine
+import CatVerif.Proofs.Readers
 namespace Cat
 open St
 
@@ -398,5 +399,12 @@ example (D : Desc) (m : List (List Byte)) : (init D (List.replicate D.cmdCap 0) 
 
 /-- non-vacuity: `A`..`Z`, digits and `+` are name characters -/
 example : NameCh 65 ∧ NameCh 122 ∧ NameCh 43 ∧ NameCh 48 := by unfold NameCh; decide
+
+/-- what follows the name decides the request type: the model's `parseCommand` (and the two
+acknowledge states) are the text regenerated from the source's character switches (T8) -/
+theorem C02_suffix_generated (D : Desc) :
+    parseCommand = Gen.parse_command ∧ waitReadAcknowledge = Gen.wait_read_acknowledge D ∧
+    waitTestAcknowledge = Gen.wait_test_acknowledge :=
+  ⟨parseCommand_generated, waitReadAcknowledge_generated D, waitTestAcknowledge_generated⟩
 
 end Cat
